@@ -132,7 +132,9 @@ def addRecycledGridGenerators (g : Grid) (gs : GSys) : R :=
     let r : Grid × Bool := if g.markedEmpty then (g, false) else ensureGenerators g
     let g1 := r.1
     if r.2 then
-      let p := normalizeDivisors2 gs g1.gs
+      -- `gs.set_space_dimension(space_dim)` first (repair of KF-C05-24: the divisors of a 0-dimensional system
+      -- were not normalised)
+      let p := normalizeDivisors2 (gs.setSpaceDim g1.spaceDim) g1.gs
       let gs2 := p.2.insertSys p.1
       { g := ((g1.withGs gs2).clearCongruencesUpToDate).clearGeneratorsMinimized }
     else if !gs.hasPoints then { g := g1, thrown := true }
